@@ -12,6 +12,10 @@ import MythVerif.Proofs.WsQueueTsoStepF2
 import MythVerif.Proofs.WsQueueTsoStepF3
 import MythVerif.Proofs.WsQueueTsoStepF4
 import MythVerif.Proofs.WsQueueTsoStepF5
+import MythVerif.Proofs.WsQueueTsoStepF6
+import MythVerif.Proofs.WsQueueTsoStepF7
+import MythVerif.Proofs.WsQueueTsoStepP1
+import MythVerif.Proofs.WsQueueTsoStepP2
 /-! The TSO invariant is inductive; it holds in every reachable state of the store-buffer machine
     with the fences of the source. -/
 namespace MythVerif.WsqTso
@@ -61,6 +65,12 @@ theorem stepT_inv (s s' : St) (p : Pid) : Inv s → stepT s p = some s' → Inv 
   | tk4 r => exact t_tk4 s s' p r h hpc hs
   | tk5 b => exact t_tk5 s s' p b h hpc hs
   | tk6 => exact t_tk6 s s' p h hpc hs
+  | tpl e => exact t_tpl s s' p e h hpc hs
+  | tp1 e => exact t_tp1 s s' p e h hpc hs
+  | tp1b e => exact t_tp1b s s' p e h hpc hs
+  | tp2 e b => exact t_tp2 s s' p e b h hpc hs
+  | tp3 e => exact t_tp3 s s' p e h hpc hs
+  | tp4 ok => exact t_tp4 s s' p ok h hpc hs
 
 set_option maxHeartbeats 1000000 in
 theorem callO_inv (s s' : St) (pc : OPc) (hpc : (∃ e, pc = .pu0 e) ∨ pc = .pq ∨ (∃ e, pc = .ptl e)) :
@@ -76,15 +86,33 @@ theorem callO_inv (s s' : St) (pc : OPc) (hpc : (∃ e, pc = .pu0 e) ∨ pc = .p
   · simp at hs
 
 set_option maxHeartbeats 1000000 in
-theorem callT_inv (s s' : St) (p : Pid) :
-    Inv s → (match s.tpc p with | .idle => some { s with tpc := upd s.tpc p .tq0 } | _ => none) = some s' → Inv s' := by
+theorem callT_inv (s s' : St) (p : Pid) (pc : TPc) (hpc : pc = .tq0 ∨ ∃ e, pc = .tpl e) :
+    Inv s → (match s.tpc p with | .idle => some { s with tpc := upd s.tpc p pc } | _ => none) = some s' → Inv s' := by
   intro h hs
   split at hs
   · rename_i heq
     simp at hs; subst hs
     cases h
     simp only [ownerLocked, carry, resetting, ownerFlight] at *
-    tso_finish
+    rcases hpc with rfl | ⟨e, rfl⟩
+    all_goals tso_finish
+  · simp at hs
+
+/-- a drain from the buffer of a thief / passer -/
+theorem f_T (s s' : St) (p : Pid) : Inv s → step s (.flushT p) = some s' → Inv s' := by
+  intro h hs
+  simp only [step] at hs
+  split at hs
+  · rename_i st rest hb
+    obtain ⟨hl, hcase⟩ := thief_buf_shape s h p st rest hb
+    simp at hs; subst hs
+    rcases hcase with ⟨b, hpc, rfl, rfl, hlb, htr⟩ | ⟨hpc, rfl, rfl, htr⟩ | ⟨e, hpc, rfl, rfl⟩ |
+      ⟨e, ok, hpc, rfl, rfl⟩ | ⟨e, ok, hpc, rfl, rfl, hp⟩
+    · exact f_T_inc s p b h hl hb hpc hlb htr
+    · exact f_T_rb s p h hl hb hpc htr
+    · exact f_T_ptr3 s p e h hl hb hpc
+    · exact f_T_ptr4 s p e ok h hl hb hpc
+    · exact f_T_baseI s p e ok h hl hb hpc hp
   · simp at hs
 
 theorem flushO_inv (s s' : St) : Inv s → step s .flushO = some s' → Inv s' := by
@@ -109,7 +137,8 @@ theorem step_inv (s : St) (l : Lbl) (s' : St) : Inv s → step s l = some s' →
   | oPut e => exact callO_inv s s' _ (Or.inr (Or.inr ⟨e, rfl⟩)) h hs
   | o => exact stepO_inv s s' h hs
   | flushO => exact flushO_inv s s' h hs
-  | tTake p => exact callT_inv s s' p h hs
+  | tTake p => exact callT_inv s s' p _ (Or.inl rfl) h hs
+  | tPass p e => exact callT_inv s s' p _ (Or.inr ⟨e, rfl⟩) h hs
   | t p => exact stepT_inv s s' p h hs
   | flushT p => exact f_T s s' p h hs
 
